@@ -84,7 +84,7 @@ class Rewriter:
         return [{"downcast": "Some", "vidx": 1}, {"field": "0", "of": "core::option::Option", "idx": 0}]
 
     def call(self, path, args, dest, target, span, krate="core"):
-        return {"k": "call", "callee": _mk_callee(path, krate), "args": args, "dest": {"local": dest, "proj": []}, "target": target, "span": span, "exp": False}
+        return {"k": "call", "callee": _mk_callee(path, krate), "args": args, "dest": {"local": dest, "proj": []}, "target": target, "span": span, "exp": False, "_ds": True}
 
     def next_loop_head(self, it_local, opt_ty, span, on_none, on_some_builder):
         """blocks: H: n = <adt as Iterator>::next(&mut it) ; D: switch discr(n) [None -> on_none, Some -> S]; returns (H, n_local)"""
@@ -350,6 +350,161 @@ class Rewriter:
         self.w.inlined[cbody.fn] = True
         return True
 
+    def rewrite_try_for_each(self, blk, defs):
+        """it.try_for_each(f)   ->   for x in it { match f(x) { Ok(()) / Some(()) => {}, miss => return-value = miss, break } }; Ok(())"""
+        t = blk["term"]
+        span = t.get("span")
+        D, T = t["dest"], t.get("target")
+        if T is None or D["proj"] or len(t["args"]) != 2:
+            return False
+        p0 = t["args"][0].get("move") or t["args"][0].get("copy")
+        if p0 is None or p0["proj"]:
+            return False
+        ds = defs.get(p0["local"], [])
+        if len(ds) != 1 or ds[0][0] != "assign" or ds[0][2]["rv"]["k"] != "ref" or ds[0][2]["rv"]["place"]["proj"]:
+            return False
+        itl = ds[0][2]["rv"]["place"]["local"]
+        if not self.j["locals"][itl].get("adt"):
+            return False
+        cbody = self.closure_body(t["args"][1])
+        if cbody is None or cbody.arg_count != 2:
+            return False
+        rty = cbody.locals[0]["ty"]
+        m = re.match(r"(?:std|core)::(result::Result|option::Option)<", rty)
+        if not m:
+            return False
+        adt = "core::" + m.group(1)
+        hit, hidx, midx = ("Ok", 0, 1) if "Result" in adt else ("Some", 1, 0)
+        item_ty = cbody.locals[2]["ty"]
+        src = self.j["locals"][itl]
+        it = self.new_local(src["ty"], src["adt"], src["tk"])
+        clo = self.stash(blk, t["args"][1], span)
+        fin_rv = {"k": "aggr", "adt": adt, "variant": hit, "fields": [{"const": {"unit": True, "ty": "()"}}], "names": ["0"], "is_enum": True}
+        done = self.new_block([{"k": "assign", "place": copy.deepcopy(D), "rv": fin_rv, "span": span, "exp": False}], {"k": "goto", "target": T})
+
+        def on_some(n, H):
+            x = self.new_local(item_ty, None, "adt")
+            cr = self.new_local("&mut " + self.j["locals"][clo]["ty"], None, "refmut")
+            y = self.new_local(rty, cbody.locals[0]["adt"], cbody.locals[0]["tk"])
+            d = self.new_local("isize", None, "int")
+            stm = [self.assign(x, self.use(self.mv(n, self.some_payload(n))), span), self.assign(cr, self.ref(clo, True), span)]
+            brk = self.new_block([{"k": "assign", "place": copy.deepcopy(D), "rv": self.use(self.mv(y)), "span": span, "exp": False}], {"k": "goto", "target": T})
+            back = self.new_block([self.assign(d, {"k": "discr", "place": {"local": y, "proj": []}, "adt": adt, "ty": rty}, span)],
+                                  {"k": "switch", "discr": self.mv(d), "arms": [[hidx, H], [midx, brk]], "otherwise": brk, "span": span})
+            return self.new_block(stm, self.call(cbody.fn, [self.mv(cr), self.mv(x)], y, back, span, krate=cbody.crate.name))
+        H, _ = self.next_loop_head(it, "core::option::Option<%s>" % item_ty, span, done, on_some)
+        blk["term"] = self.call("core::iter::traits::collect::IntoIterator::into_iter", [self.cp(itl)], it, H, span)
+        self.splice_closures({cbody.fn: cbody})
+        self.w.inlined[cbody.fn] = True
+        return True
+
+    def rewrite_for_each(self, blk, defs):
+        """it.for_each(f)   ->   for x in it { f(x) }   (closure body spliced in)"""
+        t = blk["term"]
+        span = t.get("span")
+        D, T = t["dest"], t.get("target")
+        if T is None or D["proj"] or len(t["args"]) != 2:
+            return False
+        p0 = t["args"][0].get("move") or t["args"][0].get("copy")
+        if p0 is None or p0["proj"] or not self.j["locals"][p0["local"]].get("adt"):
+            return False
+        cbody = self.closure_body(t["args"][1])
+        if cbody is None or cbody.arg_count != 2:
+            return False
+        item_ty = cbody.locals[2]["ty"]
+        src = self.j["locals"][p0["local"]]
+        it = self.new_local(src["ty"], src["adt"], src["tk"])
+        clo = self.stash(blk, t["args"][1], span)
+        done = self.new_block([{"k": "assign", "place": copy.deepcopy(D), "rv": {"k": "tuple", "fields": []}, "span": span, "exp": False}], {"k": "goto", "target": T})
+
+        def on_some(n, H):
+            x = self.new_local(item_ty, None, "adt")
+            cr = self.new_local("&mut " + self.j["locals"][clo]["ty"], None, "refmut")
+            y = self.new_local("()", None, "unit")
+            stm = [self.assign(x, self.use(self.mv(n, self.some_payload(n))), span), self.assign(cr, self.ref(clo, True), span)]
+            return self.new_block(stm, self.call(cbody.fn, [self.mv(cr), self.mv(x)], y, H, span, krate=cbody.crate.name))
+        H, _ = self.next_loop_head(it, "core::option::Option<%s>" % item_ty, span, done, on_some)
+        blk["term"] = self.call("core::iter::traits::collect::IntoIterator::into_iter", [self.cp(p0["local"])], it, H, span)
+        self.splice_closures({cbody.fn: cbody})
+        self.w.inlined[cbody.fn] = True
+        return True
+
+    def rewrite_closure_call(self, blk):
+        """a local closure called like a function, `f(a, b)`: MIR passes (env, (a, b)); the closure body takes (env, a, b).
+        Every call site of that closure in this body is rewritten to the untupled form and the body spliced in, as for an
+        extracted helper function."""
+        name = _callee(blk["term"])
+        cbody = self.w.body(name)
+        if cbody is None or cbody.fn == self.b.fn:
+            return False
+        sites = [bl for bl in self.j["blocks"] if not bl["cleanup"] and bl["term"] and bl["term"]["k"] == "call" and _callee(bl["term"]) == name and not bl["term"].get("_ds")]
+        for bl in sites:
+            t = bl["term"]
+            p1 = (t["args"][1].get("move") or t["args"][1].get("copy")) if len(t["args"]) == 2 else None
+            if p1 is None or p1["proj"] or t.get("target") is None or t["dest"]["proj"]:
+                return False
+        n = cbody.arg_count - 1
+        for bl in sites:
+            t = bl["term"]
+            span = t.get("span")
+            p1 = t["args"][1].get("move") or t["args"][1].get("copy")
+            args = [t["args"][0]]
+            for i in range(n):
+                x = self.new_local(cbody.locals[2 + i]["ty"], cbody.locals[2 + i]["adt"], cbody.locals[2 + i]["tk"])
+                bl["stmts"].append(self.assign(x, self.use(self.mv(p1["local"], [{"field": str(i), "of": "tuple", "idx": i}])), span))
+                args.append(self.mv(x))
+            bl["term"] = self.call(cbody.fn, args, t["dest"]["local"], t["target"], span, krate=cbody.crate.name)
+        self.splice_closures({cbody.fn: cbody})
+        self.w.inlined[cbody.fn] = True
+        return True
+
+    def rewrite_then(self, blk):
+        """b.then(f)   ->   if b { Some(f()) } else { None }   (closure body spliced in)"""
+        t = blk["term"]
+        span = t.get("span")
+        D, T = t["dest"], t.get("target")
+        if T is None or len(t["args"]) != 2:
+            return False
+        cbody = self.closure_body(t["args"][1])
+        if cbody is None or cbody.arg_count != 1:
+            return False
+        cond = self.stash(blk, t["args"][0], span)
+        clo = self.stash(blk, t["args"][1], span)
+        none_b = self.new_block([{"k": "assign", "place": copy.deepcopy(D), "rv": self.none(), "span": span, "exp": False}], {"k": "goto", "target": T})
+        y = self.new_local(cbody.locals[0]["ty"], cbody.locals[0]["adt"], cbody.locals[0]["tk"])
+        fin = self.new_block([{"k": "assign", "place": copy.deepcopy(D), "rv": self.some(self.mv(y)), "span": span, "exp": False}], {"k": "goto", "target": T})
+        some_b = self.new_block([], self.call(cbody.fn, [self.mv(clo)], y, fin, span, krate=cbody.crate.name))
+        blk["term"] = {"k": "switch", "discr": self.mv(cond), "arms": [[0, none_b]], "otherwise": some_b, "span": span}
+        self.splice_closures({cbody.fn: cbody})
+        self.w.inlined[cbody.fn] = True
+        return True
+
+    def rewrite_ok_or_else(self, blk):
+        """o.ok_or_else(f)   ->   match o { Some(v) => Ok(v), None => Err(f()) }"""
+        t = blk["term"]
+        span = t.get("span")
+        D, T = t["dest"], t.get("target")
+        if T is None or len(t["args"]) != 2:
+            return False
+        cbody = self.closure_body(t["args"][1])
+        if cbody is None or cbody.arg_count != 1:
+            return False
+        OPT, RES = "core::option::Option", "core::result::Result"
+        src = self.stash(blk, t["args"][0], span)
+        clo = self.stash(blk, t["args"][1], span)
+        d = self.new_local("isize", None, "int")
+        blk["stmts"].append(self.assign(d, {"k": "discr", "place": {"local": src, "proj": []}, "adt": OPT, "ty": self.j["locals"][src]["ty"]}, span))
+        ok_rv = {"k": "aggr", "adt": RES, "variant": "Ok", "fields": [self.mv(src, self.some_payload(src))], "names": ["0"], "is_enum": True}
+        ok_b = self.new_block([{"k": "assign", "place": copy.deepcopy(D), "rv": ok_rv, "span": span, "exp": False}], {"k": "goto", "target": T})
+        y = self.new_local(cbody.locals[0]["ty"], cbody.locals[0]["adt"], cbody.locals[0]["tk"])
+        err_rv = {"k": "aggr", "adt": RES, "variant": "Err", "fields": [self.mv(y)], "names": ["0"], "is_enum": True}
+        fin = self.new_block([{"k": "assign", "place": copy.deepcopy(D), "rv": err_rv, "span": span, "exp": False}], {"k": "goto", "target": T})
+        err_b = self.new_block([], self.call(cbody.fn, [self.mv(clo)], y, fin, span, krate=cbody.crate.name))
+        blk["term"] = {"k": "switch", "discr": self.mv(d), "arms": [[0, err_b], [1, ok_b]], "otherwise": err_b, "span": span}
+        self.splice_closures({cbody.fn: cbody})
+        self.w.inlined[cbody.fn] = True
+        return True
+
     def rewrite_unzip(self, blk, defs):
         t = blk["term"]
         span = t.get("span")
@@ -517,6 +672,16 @@ class Rewriter:
                         ITER + "::" + c.rsplit("::", 1)[1] not in self.w._baseline_adaptors.get(self.b.fn, ()):
                     # only where the combinator was introduced after the rules were confirmed (inert on the confirmed tree)
                     ok = self.rewrite_fold(blk, defs, c.endswith("try_fold"))
+                elif re.search(r"core::iter::traits::iterator::Iterator>?::try_for_each$", c):
+                    ok = self.rewrite_try_for_each(blk, defs)
+                elif re.search(r"core::iter::traits::iterator::Iterator>?::for_each$", c) and ITER + "::for_each" not in self.w._baseline_adaptors.get(self.b.fn, ()):
+                    ok = self.rewrite_for_each(blk, defs)
+                elif "::{closure#" in c and not t.get("_ds") and self.b.fn in c:
+                    ok = self.rewrite_closure_call(blk)
+                elif c == "bool::then" and c not in self.w._baseline_adaptors.get(self.b.fn, ()):
+                    ok = self.rewrite_then(blk)
+                elif c == "core::option::Option::ok_or_else" and c not in self.w._baseline_adaptors.get(self.b.fn, ()):
+                    ok = self.rewrite_ok_or_else(blk)
                 elif c == ITER + "::unzip":
                     ok = self.rewrite_unzip(blk, defs)
                 elif c in ("core::option::Option::map", "core::result::Result::map") and c not in self.w._baseline_adaptors.get(self.b.fn, ()):
@@ -548,7 +713,7 @@ def apply(world):
             continue
         # cheap pre-filter
         names = [_callee(bl["term"]) for bl in b.blocks if bl["term"] and bl["term"]["k"] == "call"]
-        if not any(("adapters::filter::Filter as" in n or "adapters::map::Map as" in n or n.endswith("::extend") or n.endswith("Iterator::unzip") or n.endswith("Iterator::collect") or n.endswith("Iterator::fold") or n.endswith("Iterator::try_fold")
+        if not any(("adapters::filter::Filter as" in n or "adapters::map::Map as" in n or n.endswith("::extend") or n.endswith("Iterator::unzip") or n.endswith("Iterator::collect") or n.endswith("::fold") or n.endswith("::try_fold") or n.endswith("::for_each") or n.endswith("::try_for_each") or n.endswith("::then") or n.endswith("::ok_or_else") or "::{closure#" in n
                     or n in ("core::option::Option::map", "core::result::Result::map")) for n in names):
             continue
         if b.fn.split("::")[0].lstrip("<") not in members and not any(b.fn.startswith("<" + m) for m in members):
